@@ -469,6 +469,7 @@ def dispatch(prog: Program, rep) -> None:
         classes: List[str] = []
         # selection sites: `return Class(..)`, or `var = Class` where the function finally returns `var(..)`
         sites = []
+        table_vars = []
         for r in returns_of(f):
             v = r.value
             if not isinstance(v, ast.Call):
@@ -494,8 +495,11 @@ def dispatch(prog: Program, rep) -> None:
                     for n_ in f.module.tree.body:
                         if isinstance(n_, ast.Assign) and any(isinstance(t, ast.Name) and t.id == U(q.stmt.iter) for t in n_.targets):
                             tab = n_.value
+                        elif isinstance(n_, ast.AnnAssign) and n_.value is not None and U(n_.target) == U(q.stmt.iter):
+                            tab = n_.value
                 if isinstance(tab, (ast.Tuple, ast.List)) and all(isinstance(e, ast.Tuple) and len(e.elts) == 2 for e in tab.elts):
                     kn, cn = (U(e) for e in q.stmt.target.elts)
+                    table_vars.append(cn)
                     body = [b for b in q.stmt.body]
                     okb = len(body) == 1 and isinstance(body[0], ast.If) and not body[0].orelse and len(body[0].body) == 1 and isinstance(body[0].body[0], ast.Return) \
                         and isinstance(body[0].body[0].value, ast.Call) and U(body[0].body[0].value.func) == cn
@@ -532,6 +536,14 @@ def dispatch(prog: Program, rep) -> None:
             seen[mem] = cls_name
             classes.append(cls_name)
         missing = [m for m in members if m not in seen]
+        if missing:
+            # a selection the rule cannot read (classes looked up by name, built by a helper, ...) is not a missing branch
+            accounted = {id(r) for r, _ in sites}
+            var_sites = {r.targets[0].id for r, _ in sites if isinstance(r, ast.Assign)}
+            unread = [r for r in returns_of(f) if isinstance(r.value, ast.Call) and id(r) not in accounted
+                      and not (isinstance(r.value.func, ast.Name) and (r.value.func.id in table_vars or r.value.func.id in var_sites))]
+            if unread:
+                raise AnalysisError(f"{f.short}: the factory returns `{U(unread[0].value)[:60]}`, which the rule cannot relate to a class (selection not in a recognised form)")
         rep.check(not missing and len(set(classes)) == len(classes), "dispatch-exhaustive", f.qualname, f.name,
                   f"{f.name}: every member of {eq.rsplit('.', 1)[-1]} selects exactly one branch and every branch builds a distinct class (missing {missing}; classes {classes})", f.loc())
     # implementations are complete
